@@ -151,7 +151,7 @@ def leanchecker(modules):
 
 def list_theorems(prop_module, namespace):
     src = strip_comments(open(module_files(prop_module)).read())
-    return [f"{namespace}.{n}" for n in re.findall(r"^theorem\s+([\w.']+)", src, flags=re.M)]
+    return [f"{namespace}.{n}" for n in re.findall(r"^theorem\s+([^\s({\[:]+)", src, flags=re.M)]
 
 
 def _run_shard(args):
